@@ -82,7 +82,8 @@ impl World {
     pub fn deploy(dep: &Value) -> World {
         let rec: Rec = Rc::new(RefCell::new(Recorder::default()));
         let native = gets(dep, "collateral", "cw20") == "native";
-        let dec = geti(dep, "dec", 2) as u32;
+        let big = getb(dep, "big", false);
+        let dec = if big { 6 } else { geti(dep, "dec", 2) as u32 };
         let real_feed = gets(dep, "feed", "mock") == "real";
         let d = 10i64.pow(dec);
         let denom = match dec {
@@ -129,7 +130,7 @@ impl World {
                         .init_balance(
                             storage,
                             &Addr::unchecked("bank"),
-                            vec![Coin::new(1_000_000_000u128, denom2.clone())],
+                            vec![Coin::new(1_000_000_000_000_000_000u128, denom2.clone())],
                         )
                         .unwrap();
                 }
@@ -365,7 +366,7 @@ impl World {
                 )
                 .unwrap();
             }
-            let allow = geti(dep, "allowance", 1_000_000_000);
+            let allow = geti(dep, "allowance", if big { 1_000_000_000_000_000 } else { 1_000_000_000 });
             if allow > 0 {
                 for t in TRADERS.iter().chain(["sfx"].iter()) {
                     app.execute_contract(
